@@ -18,7 +18,11 @@ From SK Require Import model.C02_Store.
 Import ListNotations.
 Local Open Scope Z_scope.
 
-(** 1. a bond is in the centre iff its two orders differ or both atoms are hydrogens; it keeps its labels *)
+(** 1. a bond is in the centre iff its two orders differ or both atoms are hydrogens; it keeps its labels.
+       [std_consistent] (standard_order = order difference: every ITSGraph / construct output without ignore_aromaticity) cannot be
+       dropped: get_rc reads standard_order only — witness C02_rc_edges_inconsistent_refuted (theorem 51).
+       Model remark: [ensure_node] / [ensure_x] / [ensure_g] leave the state unchanged for an id that is not an atom of the ITS, where
+       the Python helpers would raise KeyError; under [wf] every bond joins atoms of the graph, so the case is unreachable. *)
 Theorem C02_rc_edges : forall g : its, wf g -> std_consistent g -> forall u v e,
   adj (get_rc g) u v = Some e <->
   adj g u v = Some e /\ (e_G e <> e_H e \/ (is_h g u = true /\ is_h g v = true)).
@@ -228,7 +232,9 @@ Proof. exact rcx_idem_needs_typesGH. Qed.
 Print Assumptions C02_rcx_idem_needs_typesGH.
 
 (** 19. longest_radius_extension (model with fuel, [lre]) returns the empty path or a centre atom followed by a
-        duplicate-free chain of bonds whose standard_order is 0 ([zchain g n ext]: std0 on every consecutive pair) *)
+        duplicate-free chain of bonds whose standard_order is 0 ([zchain g n ext]: std0 on every consecutive pair).
+        Read alone this would admit [] or a truncated (out-of-fuel) path: the empty alternative occurs only without centre
+        atoms (theorem 51, C02_lre_nil_iff) and theorems 21 / 22 bound the result from below by EVERY duplicate-free chain. *)
 Theorem C02_lre_path : forall (g : its) (rcn : list N),
   lre g rcn = [] \/
   exists n ext, In n rcn /\ lre g rcn = n :: ext /\ zchain g n ext /\ NoDup (n :: ext).
@@ -926,3 +932,15 @@ Theorem C02_implicit_rule : forall bal (G H : mgraph), wf G -> wf H ->
                  In v (node_ids (get_rc_x K_default true false (emb (its_construct_ab false bal G H))))).
 Proof. exact implicit_rule_spec. Qed.
 Print Assumptions C02_implicit_rule.
+
+(** 51. (audit remarks) The hypothesis of theorem 1 is needed: on a hand-made ITS whose bond has orders (1, 2) but standard_order 0 the
+        orders differ and the bond is not in the centre.  The result of longest_radius_extension is empty iff there is no centre atom. *)
+Theorem C02_rc_edges_inconsistent_refuted :
+  wf ex_incons /\ ~ std_consistent ex_incons /\ ~ ia_consistent ex_incons /\
+  (exists e, adj ex_incons 1%N 2%N = Some e /\ e_G e <> e_H e) /\ adj (get_rc ex_incons) 1%N 2%N = None.
+Proof. exact rc_edges_inconsistent_refuted. Qed.
+Print Assumptions C02_rc_edges_inconsistent_refuted.
+
+Theorem C02_lre_nil_iff : forall (g : its) (rcn : list N), lre g rcn = [] <-> rcn = [].
+Proof. exact lre_nil_iff. Qed.
+Print Assumptions C02_lre_nil_iff.
